@@ -93,7 +93,7 @@ Prop_C03(S) == IsRecv(S) =>
 HasActions(S) == HasPayload(S) /\ Len(S.in.acts) > 0
 \* what each action does to the coin it sees
 ActEffect(a, c) == IF ActOf(a.id) = "FEE" THEN [d |-> c.d, n |-> c.n - FeeTotal(c.n, a.fees)]
-                   ELSE [d |-> "uswap", n |-> c.n \div 2]
+                   ELSE [d |-> "uswap", n |-> SwapOut(a, c.n)]
 Prop_C06(S) ==
   /\ (IsOrbiterPacket(S) /\ S.in.mk = "PAYLOAD" /\ ParseOK(S.in) /\ RepeatsAction(S.in) => ~S.ok)
   /\ (HasActions(S) /\ S.ok /\ S.hasTrace =>
@@ -155,6 +155,11 @@ Prop_C02big(S) == IsBig(S) /\ S.ok =>
   /\ BEq(S.big.esc, S.in.amtd)
   /\ BEq(BAdd(BAdd(S.big.F1, S.big.F2), BAdd(S.big.U, S.big.dust)), S.in.amtd)
   /\ BIsZero(S.big.orb) /\ ~BIsZero(S.big.U)
+
+\* full-precision amounts (outside Apply's integers): a success acknowledgement only after every fund
+\* movement of the transfer has completed - nothing of it is left on the orbiter account and the
+\* destination was credited (e.g. when a statistics update fails on a saturated route)
+Prop_C03big(S) == IsBig(S) /\ S.ok => BIsZero(S.big.orb) /\ ~BIsZero(S.big.U)
 
 (* C05 The outgoing bridge request carries exactly the user's route and parameters *)
 PostActionCoin(S) == IF FeeActs(S) # {} /\ ~HasSwap(S)
